@@ -14,11 +14,14 @@ P = {
     "theorems": ["C08_reencoding_invariant", "C08_reencoding_invariant_parametric", "C08_F1_refuted",
                  "C08_F3_pinned_refuted", "C08_F2_pinned_refuted", "C08_reencoding_invariant_nonvacuous",
                  "C08_malformed_rejected", "C08_reenc_checked_by_evaluator", "C08_off_rejects_encoded_slash",
-                 "C08_off_answers_precondition", "C08_off_rejects_encoded_slash_parametric", "C08_F4_off_refuted",
-                 "C08_F2_off_pinned_refuted", "C08_off_captures_decoded", "C08_capture_decoding",
-                 "C08_capture_decoding_parametric", "C08_nodecode_keeps", "C08_on_decodes",
-                 "C08_nodecode_on_nonvacuous", "C08_F5_nodecode_pinned_refuted", "C08_F2_nodecode_pinned_refuted",
-                 "C08_reencoding_invariant_envoy", "C08_off_rejects_encoded_slash_envoy", "C08_F4_envoy_upstream_refuted"],
+                 "C08_off_rejects_encoded_slash_parametric", "C08_F4_off_refuted", "C08_F2_off_pinned_refuted",
+                 "C08_off_captures_decoded", "C08_capture_decoding", "C08_capture_decoding_parametric",
+                 "C08_nodecode_keeps", "C08_on_decodes", "C08_nodecode_on_nonvacuous",
+                 "C08_F5_nodecode_pinned_refuted", "C08_F2_nodecode_pinned_refuted", "C08_reencoding_invariant_envoy",
+                 "C08_off_rejects_encoded_slash_envoy", "C08_F4_envoy_upstream_refuted", "C08_accepted_request",
+                 "C08_accepted_request_envoy", "C08_accepted_request_xfu", "C08_precondition_answer",
+                 "C08_precondition_answer_envoy", "C08_reencoding_invariant_xfu", "C08_off_rejects_encoded_slash_xfu",
+                 "C08_F6_refuted"],
     "streams": [{
         "name": "requests", "pkg": "./internal/rules", "test": "TestVerifC08",
         "overlay": {"internal/rules/zz_verif_c08_test.go": "c08/c08_test.go"},
